@@ -35,10 +35,11 @@ class FakePort:
     registry: list = []
     default_on_tx = None
     default_auto = None
+    routes: dict = {}  # port name -> Session, for sessions that share the process with other sessions (`port_name=`)
 
     def __init__(self, *a, **k):
         self.is_open = False
-        self.port = None
+        self.port = k.get("port")
         self.dtr = None
         self.parity = None
         self.rxq: queue.Queue = queue.Queue()
@@ -54,6 +55,10 @@ class FakePort:
         FakePort.registry.append(self)
 
     def open(self):
+        sess = FakePort.routes.get(self.port)
+        if sess is not None:  # several writers alive at once: each port belongs to the session that named it
+            self.on_tx, self.auto = sess._on_tx, sess.auto
+            sess.port = self
         self.is_open = True
 
     def close(self):
@@ -172,6 +177,36 @@ class TcpDevice:
                 pass
 
 
+# --------------------------------------------------------------------------- patches shared by concurrent sessions
+_shared_patches: list = []
+_shared_users = 0
+
+
+def _acquire_patches():
+    """`serial.Serial` -> FakePort once, however many sessions are alive (nested mock.patch objects stopped out of
+    order would leave the fake port installed)"""
+    global _shared_users
+    if _shared_users == 0:
+        p1 = mock.patch("serial.Serial", FakePort)
+        p2 = mock.patch("gscrib.printrun.device.Device._disable_ttyhup", lambda self: None)
+        p1.start()
+        p2.start()
+        _shared_patches[:] = [p1, p2]
+    _shared_users += 1
+
+
+def _release_patches():
+    global _shared_users
+    _shared_users = max(0, _shared_users - 1)
+    if _shared_users == 0:
+        for p in _shared_patches:
+            try:
+                p.stop()
+            except Exception:
+                pass
+        _shared_patches[:] = []
+
+
 # --------------------------------------------------------------------------- one writer session
 class Session:
     """One real writer driven by a worker thread: connect(); write(s_0) … write(s_{n-1});
@@ -179,8 +214,13 @@ class Session:
 
     READ_KEYS = ("T", "B", "X", "Y", "Z", "E", "F", "S")
 
-    def __init__(self, kind: str, stmts: list, disc: bool, gated: bool = False, timeout: float | None = None):
+    def __init__(self, kind: str, stmts: list, disc: bool, gated: bool = False, timeout: float | None = None,
+                 port_name: str | None = None):
+        """port_name: this session shares the process with other live sessions (two machines driven by one program):
+        its fake port is found by name instead of through the class-wide defaults, the `serial.Serial` patch is
+        shared, and `cleanup(check_threads=False)` leaves the thread census to the last session torn down."""
         self.kind, self.disc, self.gated, self.timeout = kind, disc, gated, timeout
+        self.port_name = port_name
         self.gate = threading.Semaphore(0)  # gated caller: one permit per write() / disconnect() call
         self.stmts = [s if isinstance(s, bytes) else s.encode() for s in stmts]
         self.stmt_index = {}
@@ -211,6 +251,11 @@ class Session:
                 self.tcp = TcpDevice()
                 self.tcp.on_tx = self._on_tx
                 self.writer = SocketWriter("127.0.0.1", self.tcp.port_number)
+            elif self.port_name is not None:
+                FakePort.routes[self.port_name] = self
+                _acquire_patches()
+                self._patches = ["shared"]
+                self.writer = SerialWriter(self.port_name, 115200)
             else:
                 FakePort.registry.clear()
                 FakePort.default_on_tx = self._on_tx
@@ -234,6 +279,8 @@ class Session:
         """the device end (fake port or TCP peer) once it exists"""
         if self.kind == "socket":
             return self.tcp
+        if self.port_name is not None:
+            return self.port  # bound by FakePort.open()
         if self.port is None and FakePort.registry:
             self.port = FakePort.registry[0]
         return self.port
@@ -434,7 +481,7 @@ class Session:
         return d
 
     # ---- teardown (must leave no printcore thread behind)
-    def cleanup(self):
+    def cleanup(self, check_threads=True):
         self._stopping = True
         for _ in range(len(self.stmts) + 2):
             self.gate.release()
@@ -481,11 +528,17 @@ class Session:
         if self.worker is not None:
             self.worker.join(timeout=1.0)
         for p in self._patches:
+            if p == "shared":
+                _release_patches()
+                FakePort.routes.pop(self.port_name, None)
+                continue
             try:
                 p.stop()
             except Exception:
                 pass
         self._patches = []
+        if not check_threads:  # another session of this process is still alive: its threads are not leftovers
+            return []
         leftover = [t for t in threading.enumerate()
                     if t.name in ("read thread", "send thread", "print thread") and t.is_alive()]
         for t in leftover:
